@@ -13,12 +13,17 @@ class GhostMixin:
     def init_ghost(self):
         self.g_out = self.heap.alloc(ListObj([]))
         self.g_enc = 0
+        self.g_nframes = 0          # number of frames ever serialised (survives a loop havoc of g_out)
+        self.g_ngoaway = 0          # ... of which GOAWAY frames (C18: exactly one per connection error)
         self.g_dec = 0
         self.g_enc_log = []
         self.ghost_blocks = []
 
     def ghost_emit(self, frame_ref):
         self.heap.get(self.g_out).items.append(frame_ref)
+        self.g_nframes = self.g_nframes + 1
+        if str(self.heap.get(frame_ref).cls).endswith('GoAwayFrame'):
+            self.g_ngoaway = self.g_ngoaway + 1
 
     def unopt_strict(self, v, node=None):
         """Value used where None is a TypeError."""
